@@ -18,6 +18,8 @@ fn run_case(case: &Value) -> Result<String, String> {
         "cm_confidence" => Ok(crate::c08::replay_confidence(case)),
         "bloom_ops" => Ok(crate::bloomm::replay(case)),
         "bloom_fpp" | "bloom_builder" => Ok(crate::c09::replay_e3(case)),
+        "fi_ops" => Ok(crate::fim::replay(case)),
+        "td_image" | "td_ops" | "td_tree" => Ok(crate::tdm::replay(case)),
         "hll_two_orders" => {
             let lg_k = case["lg_k"].clone();
             let start: Vec<Value> = case["start"].as_array().cloned().unwrap_or_default();
